@@ -185,3 +185,42 @@ def r9_line_base(ctx):
     r.counts["position_constructions"] = n
     r.floor("Position constructions", n, 3)
     return r
+
+
+def r9_char_count_plus_bytes(ctx):
+    r = Result("R9d", "a number of characters (`s.chars().count()`) is not added to a byte column (a recorded start_char / a "
+                      "get_char_position_from_offset result / a find() offset): the recorded spans are byte spans, a char count "
+                      "is shorter than the byte length for every non-ASCII name, so the span ends inside the token")
+    crate = ctx.bin
+    og = _origins(ctx)
+    n = 0
+    for f in crate.real_fns():
+        counts = set()
+        for bb, c in f.calls():
+            if re.search(r"Iterator>?::count$", c.get("fn") or c.get("res") or "") and "str::Chars" in " ".join(c.get("targs", [])):
+                counts.add(place_local(c["dest"]))
+        if not counts:
+            continue
+        changed = True
+        while changed:
+            changed = False
+            for bb, si, pl, rv, sp in f.assigns():
+                if isinstance(pl, int) and pl not in counts and rv[0] == "use" and op_local(rv[1]) in counts and not place_projs(op_place(rv[1])):
+                    counts.add(pl)
+                    changed = True
+        for bb, si, pl, rv, sp in f.assigns():
+            if rv[0] != "bin" or not rv[1].startswith("Add"):
+                continue
+            a, b = rv[2], rv[3]
+            for x, y in ((a, b), (b, a)):
+                if op_local(x) in counts:
+                    n += 1
+                    terms = og.of_operand(f, y)
+                    byte = sorted({classify(t)[5:] for t in terms if classify(t).startswith("byte:")})
+                    key = "R9d|%s|chars().count() + %s" % (f.id, ",".join(byte) or "?")
+                    if byte:
+                        r.violate(key, "%s adds a character count to the byte column %s at %s" % (f.id, byte, crate.span_str(sp)))
+                    else:
+                        r.ok()
+    r.counts["char_counts_added"] = n
+    return r
